@@ -2,17 +2,21 @@
 # apply every seeded change to a scratch worktree (never /repo) and run the quick checks of the
 # properties recorded in its meta.json: each must exit 1.  usage: tools/seed_regress.sh [name-substr]
 cd "$(dirname "$0")/.."
-WT=/tmp/scratch/seedreg
+# SHARD=k/n runs every n-th change (own worktree), so that several shards can run side by side
+K=${SHARD%/*}; N=${SHARD#*/}; [ -z "$SHARD" ] && { K=0; N=1; }
+WT=/tmp/scratch/seedreg$K
 rm -rf $WT; git -C /repo worktree prune; git -C /repo worktree add --detach $WT HEAD -q || exit 3
 miss=0
+idx=-1
 for d in seeded/*/; do
   n=$(basename $d)
+  idx=$((idx+1)); [ $((idx % N)) -ne $K ] && continue
   [[ -n "$1" && "$n" != *$1* ]] && continue
   props=$(python3 -c "import json,sys;m=json.load(open('$d/meta.json'));print(' '.join(m.get('detected_by') or m.get('detected_after_strengthening') or [m.get('property')]))")
   git -C $WT checkout -q -- . ; git -C $WT apply $PWD/$d/patch.diff || { echo "$n: patch does not apply"; continue; }
   caught=""
   for p in $props; do
-    python3-vt vc/run.py --property $p --repo $WT --evidence /tmp/scratch/seedreg_ev.json >/tmp/scratch/seedreg_out.txt 2>&1
+    python3-vt vc/run.py --property $p --repo $WT --evidence /tmp/scratch/seedreg_ev$K.json >/tmp/scratch/seedreg_out$K.txt 2>&1
     rc=$?
     [ $rc -eq 1 ] && caught="$caught $p"
     [ $rc -ne 1 ] && echo "   $n: $p exit $rc"
